@@ -865,6 +865,203 @@ def part_corrupt(tree, out, bases):
                          tree, "corrupt")
 
 
+# ---------------------------------------------------------------------------------------------- part: Signature subclasses
+_SUBCLS = None
+
+
+def subclasses():
+    """a trivial Signature subclass (inherits the identity-based __eq__) and one whose create() returns a custom interface"""
+    global _SUBCLS
+    if _SUBCLS is None:
+        from amaranth.lib import wiring as W
+
+        class Sub(W.Signature):
+            pass
+
+        class CustomIface(W.PureInterface):
+            pass
+
+        class SubCustom(W.Signature):
+            def create(self, *, path=None, src_loc_at=0):
+                return CustomIface(self, path=path, src_loc_at=1 + src_loc_at)
+        _SUBCLS = {"Sub": Sub, "SubCustom": SubCustom}
+    return _SUBCLS
+
+
+def build_sig_sub(tree, kind, reg, path=(), top=True):
+    """like _build_sig, but every signature member is an instance of a Signature subclass; reg[name path] = instance"""
+    from amaranth.hdl import signed, unsigned
+    from amaranth.lib import wiring as W
+    members = {}
+    for name, n in tree:
+        flow = W.Out if n["f"] == "o" else W.In
+        if n["k"] == "p":
+            shape, inits = shapes()[n["s"]]
+            m = flow(shape, init=inits[n["i"]])
+        else:
+            m = flow(build_sig_sub(n["t"], kind, reg, (*path, name), top=False))
+        if n["d"]:
+            m = m.array(*n["d"])
+        members[name] = m
+    if top:
+        return W.Signature(members)
+    inst = subclasses()[kind](members)
+    reg[path] = inst
+    return inst
+
+
+def sub_elements(tree, flipped=False, path=()):
+    """every sub-interface element: (object path, name path of its signature member, effectively flipped?)"""
+    out = []
+    for name, n in tree:
+        if n["k"] != "s":
+            continue
+        ef = flipped ^ (n["f"] == "i")
+        for idx in R.indices(n["d"]):
+            p = (*path, name, *idx)
+            out.append((p, R.name_path(p), ef))
+            out.extend(sub_elements(n["t"], ef, p))
+    return out
+
+
+def put_sub(obj, p, new):
+    """obj.<p> = new for a sub-interface element; array members are re-assigned as a whole (a flipped parent hands out
+    copies of its lists)"""
+    k = max(i for i, x in enumerate(p) if isinstance(x, str))
+    parent = walk(obj, p[:k])
+    idxs = p[k + 1:]
+    if not idxs:
+        setattr(parent, p[k], new)
+        return
+
+    def rebuilt(cur, idxs):
+        cur = list(cur)
+        cur[idxs[0]] = new if len(idxs) == 1 else rebuilt(cur[idxs[0]], idxs[1:])
+        return cur
+    setattr(parent, p[k], rebuilt(getattr(parent, p[k]), idxs))
+
+
+def part_subclass(tree, out, kinds=("Sub", "SubCustom")):
+    from amaranth.hdl import Module
+    from amaranth.lib import wiring as W
+    c = R.canon(tree)
+    if not any(n["k"] == "s" for _, n in tree):
+        return
+    for kind in kinds:
+        tag = f"subclass:{kind}"
+        out.add("evaluations")
+        out.add("subclass_trees")
+        step = "build"
+        try:
+            reg = {}
+            sig = build_sig_sub(tree, kind, reg)
+            reg2 = {}
+            build_sig_sub(tree, kind, reg2)
+            # -- identity and equality laws of subclass instances
+            step = "laws"
+            for np_, s in reg.items():
+                out.add("subclass_law_checks")
+                f1, f2 = s.flip(), s.flip()
+                laws = {"s == s": s == s, "not s != s": not (s != s), "s != s.flip()": s != f1, "not s == s.flip()": not (s == f1),
+                        "s.flip() != s": f1 != s, "not s.flip() == s": not (f1 == s), "s.flip() == s.flip()": f1 == f2,
+                        "s.flip().flip() is s": f1.flip() is s, "s.flip().flip() == s": f1.flip() == s,
+                        "another instance with the same members is a different signature": not (s == reg2[np_]) and
+                        not (s.flip() == reg2[np_].flip())}
+                broken = [k for k, v in laws.items() if v is not True]
+                if broken:
+                    out.viol(f"{tag}:{c}:laws:{'.'.join(np_)}", f"{kind} instance used as member {'.'.join(np_)} of {c} violates "
+                             f"{broken}", tree, "subclass")
+            # -- uncorrupted objects comply and connect as the oracle says
+            step = "create"
+            objs = [sig.create(path=("i0",)), sig.flip().create(path=("i1",))]
+            sigs = [sig, sig.flip()]
+            xs = [tree, R.flip_top(tree)]
+            for j in range(2):
+                reasons = []
+                if sigs[j].is_compliant(objs[j], reasons=reasons) is not True:
+                    out.viol(f"{tag}:{c}:i{j}:not-compliant", f"object created from {'sig.flip()' if j else 'sig'} of {c} with {kind} "
+                             f"members does not comply: {reasons}", tree, "subclass")
+                for p, np_, ef in sub_elements(tree, bool(j)):
+                    want = reg[np_].flip() if ef else reg[np_]
+                    wrong = reg[np_] if ef else reg[np_].flip()
+                    got = walk(objs[j], p).signature
+                    out.add("subclass_nested_signature_checks")
+                    if not (got == want) or (got == wrong):
+                        out.viol(f"{tag}:{c}:i{j}:nested-signature:{'.'.join(map(str, p))}", f"sub-interface {p} of the object "
+                                 f"created from {'sig.flip()' if j else 'sig'} of {c}: signature {got!r}, expected orientation "
+                                 f"{'flipped' if ef else 'as declared'}", tree, "subclass")
+            step = "connect"
+            tp = Tuple_(xs, ("plain", "flip"), ifaces=objs)
+            vals = tp.leaf_values()
+            idmap = {id(vals[j][p]): (j, p) for j in range(2) for p in tp.paths}
+            want_map = expected_map(tp, {})
+            for order in ((0, 1), (1, 0)):
+                m = Module()
+                W.connect(m, *[objs[j] for j in order])
+                frag, got, _n = stmt_map(m, idmap)
+                out.add("connect_accepted")
+                if got != want_map:
+                    out.viol(f"{tag}:{c}:connect:order{order}:map", f"connect over {c} with {kind} members, order {order}: "
+                             f"{sorted(got ^ want_map, key=repr)[:4]}", tree, "subclass")
+            if tp.paths:
+                errs = simulate(frag, tp, vals, {}, out)
+                out.add("simulations")
+                if errs:
+                    out.viol(f"{tag}:{c}:connect:flow", f"connect over {c} with {kind} members: {errs[:3]}", tree, "subclass")
+            # -- a sub-interface created with the wrong orientation from the same signature instance
+            for j in range(2):
+                for p, np_, ef in sub_elements(tree, bool(j)):
+                    where = f"i{j}." + ".".join(map(str, p))
+                    step = "wrong-orientation " + where
+                    out.add("evaluations")
+                    out.add("corrupt_wrong-orientation")
+                    inst = reg[np_]
+                    original = walk(objs[j], p)
+                    wrong = (inst if ef else inst.flip()).create(path=("w",))
+                    put_sub(objs[j], p, wrong)
+                    try:
+                        bad = []
+                        if walk(objs[j], p).signature == (inst.flip() if ef else inst):
+                            bad.append("the replaced sub-interface still reports the right orientation")
+                        reasons = []
+                        if sigs[j].is_compliant(objs[j], reasons=reasons) is not False:
+                            bad.append("is_compliant(reasons=[]) is not False")
+                        elif not reasons:
+                            bad.append("is_compliant is False but gives no reason")
+                        if sigs[j].is_compliant(objs[j]) is not False:
+                            bad.append("is_compliant() is not False")
+                        for order in ((0, 1), (1, 0)):
+                            m = Module()
+                            try:
+                                W.connect(m, *[objs[i] for i in order])
+                                res = "no-error"
+                            except Exception as e:
+                                res = ename(e)
+                            if res != "ConnectionError":
+                                bad.append(f"connect order {order}: expected ConnectionError, got {res}")
+                            elif n_statements(m):
+                                bad.append(f"connect order {order}: ConnectionError but statements were added")
+                            else:
+                                out.add("connect_rejected")
+                        if bad:
+                            out.viol(f"{tag}:{c}:wrong-orientation@{where}", f"{c} with {kind} members, sub-interface {where} "
+                                     f"created with the wrong orientation ({'plain' if ef else 'flipped'} instead of "
+                                     f"{'flipped' if ef else 'plain'}): {bad}", tree, "subclass")
+                    finally:
+                        put_sub(objs[j], p, original)
+            # restored objects comply again (guards the harness)
+            assert all(sigs[j].is_compliant(objs[j]) for j in range(2)), "harness: restore failed"
+        except Exception as e:
+            out.viol(f"{tag}:{c}:{step}:{ename(e)}", f"{c} with {kind} members: {step} raised {e!r}", tree, "subclass")
+
+
+def subclass_family(quick):
+    d = D2
+    levels = [dict(pd=d, sd=d, maxm=2, max_sub=1, pair_pd=[()]), dict(pd=d, sd=d, maxm=2, max_sub=1, pair_pd=[()]),
+              dict(pd=[()] if quick else d, sd=[], maxm=1)]
+    return [t for t in R.structural_family(levels) if any(n["k"] == "s" for _, n in t)]
+
+
 # ---------------------------------------------------------------------------------------------- part 4: metadata
 _JSONSCHEMA = None
 
@@ -949,6 +1146,8 @@ def check_trees(task):
             part_connect(tree, out, opts["variations"], opts.get("all_perm_sims", False))
         if "routes" in opts["parts"] and (opts.get("routes_flat", True) or any(n["k"] == "s" for _, n in tree)):
             part_routes(tree, out, opts.get("route_sims", 2))
+        if "subclass" in opts["parts"]:
+            part_subclass(tree, out)
         if "constmix" in opts["parts"]:
             part_constmix(tree, out, opts.get("constmix_k", (3, 4)), opts.get("constmix_all_leaves", True))
         if "corrupt" in opts["parts"]:
@@ -1018,6 +1217,10 @@ def run(rep):
     zw_opts = {"parts": ["sig", "meta"], "meta_both": True, "meta_explicit_validate": True}
     tasks += [(ch, zw_opts) for ch in chunks(zw, 8)]
     tasks.append(([], {"parts": ["schema"]}))
+    # nested signature members as instances of Signature subclasses (identity-based equality)
+    sc = subclass_family(rep.quick)
+    tasks += [(ch, {"parts": ["subclass"]}) for ch in chunks(sc, 12)]
+    rep.setcov("subclass_trees_distinct", len(sc))
     rep.setcov("zero_width_trees", len(zw))
     rep.setcov("jsonschema_package_importable", bool(_jsonschema()))
     tasks = rotate(tasks, rep.seed)
@@ -1058,7 +1261,10 @@ def run(rep):
                "every interface; component metadata of sig and sig.flip() compared with the expected document and the "
                "published schema (own validator; `jsonschema` package too when importable); a zero-width family (each port in turn "
                "unsigned(0)) through the signature and metadata parts incl. ComponentMetadata.validate(); facts of the schema "
-               "object vs the published document. non-trivial = tree has a signature member or an array dimension")
+               "object vs the published document; a family whose nested signature members are instances of Signature "
+               "subclasses (trivial, and with a custom create()): equality/identity laws, compliance, connect, and every "
+               "sub-interface element re-created with the wrong orientation (must be non-compliant with a reason and "
+               "rejected by connect in both orders). non-trivial = tree has a signature member or an array dimension")
     if rep.violations:
         return      # a failing run is reported as such; vacuity is only a concern for a passing run
     for key in ("signatures", "tuples", "connect_accepted", "connect_rejected", "simulations", "permutations",
@@ -1066,7 +1272,8 @@ def run(rep):
                 "metadata_leaves", "corrupt_missing", "corrupt_width", "corrupt_init", "corrupt_second-output",
                 "corrupt_const-differs", "corrupt_const-vs-signal", "corrupt_obj-width", "corrupt_obj-init", "corrupt_dims",
                 "objects_created", "nested_signature_checks", "route_pairs", "constmix_expect_accept", "constmix_expect_error",
-                "constmix_signal_input_beside_constant_input", "metadata_zero_width_leaves", "metadata_explicit_validate_calls",
+                "constmix_signal_input_beside_constant_input", "metadata_zero_width_leaves", "metadata_explicit_validate_calls", "subclass_law_checks",
+                "subclass_nested_signature_checks", "corrupt_wrong-orientation",
                 "schema_facts_checked", "idle_tuples", "idle_leaves", "corrupt_idle-width", "corrupt_idle-init", "corrupt_idle-obj-width",
                 "corrupt_idle-obj-init"):
         rep.require(rep.cov.get(key, 0) > 0, f"{key} never exercised")
